@@ -45,8 +45,14 @@ func NewQueue[T any](opts ...options.Option[Queue[T]]) (queue *Queue[T]) {
 
 // Add inserts a new element into the queue that can be retrieved via Poll() at the specified time.
 func (t *Queue[T]) Add(value T, scheduledTime time.Time) (addedElement *QueueElement[T]) {
-	// prevent modifications of a shutdown queue
+	// acquire locks
+	t.heapMutex.Lock()
+
+	// prevent modifications of a shutdown queue (checked while holding the lock: Shutdown marks the queue as shutdown
+	// before it handles the pending elements under the same lock, so an element is either refused or still handled)
 	if t.IsShutdown() {
+		t.heapMutex.Unlock()
+
 		if t.shutdownFlags.HasBits(PanicOnModificationsAfterShutdown) {
 			panic("tried to modify a shutdown TimedQueue")
 		}
@@ -54,9 +60,6 @@ func (t *Queue[T]) Add(value T, scheduledTime time.Time) (addedElement *QueueEle
 		return nil
 	}
 	verifAddHook(scheduledTime)
-
-	// acquire locks
-	t.heapMutex.Lock()
 
 	// add new element
 
